@@ -915,13 +915,8 @@ theorem insertObject_comps {e e' : Engine} {o : Obj} (h : e.insertObject o = .ok
     subst this
     exact ⟨rfl, rfl, rfl⟩
   | anp a =>
-    have := Structure.insertObject_ok h
-    simp only [insertObject, insertANP] at h
-    split at h
-    · cases h
-    · split at h
-      · cases h
-      · simp only [Except.ok.injEq] at h; subst h; exact ⟨rfl, rfl, rfl⟩
+    have he := Structure.insertANP_eq (show e.insertANP a = .ok e' from h)
+    subst he; exact ⟨rfl, rfl, rfl⟩
   | banp b =>
     simp only [insertObject, insertBANP] at h
     split at h
